@@ -182,7 +182,7 @@ def mk_hole(kind, n):
                 exp = [('selector', 0, 1, 1), ('propertyName', 2, 3, 3), ('propertyValue', 4, h_ + L + 1, h_ + L + 1)]
                 if wrong:
                     exp = exp[:-1]
-                return True if (toks[:3] == exp and toks[-4:] == tail_toks and len(toks) == 9) else 'parenthesised_content_delimits'
+                return True if (toks[:3] == exp and toks[-4:] == tail_toks and len(toks) == 10) else 'parenthesised_content_delimits'
             if toks[-4:] != tail_toks:
                 return 'content_delimited_something'
             # the second rule is found wherever we are in it
